@@ -456,6 +456,12 @@ def sx_in(a, b):
         if len(a) == 1:
             return _schar_in(a.items[0], b) if isinstance(a.items[0], SChar) else (a.items[0] in b)
         return coerce(b).find(a) >= 0
+    from . import dates as _dates
+    if isinstance(a, _dates.SDateTime) and isinstance(b, (dict, set, frozenset, list, tuple)):
+        for key in b:
+            if isinstance(key, _dates.SDateTime) and (a == key):
+                return True
+        return False
     if isinstance(a, SInt) and isinstance(b, (set, frozenset, dict)):
         for key in b:
             if isinstance(key, int) and (a == key):
@@ -597,7 +603,7 @@ def sx_isinstance(o, cls):
     cl = cls if _builtin_isinstance(cls, tuple) else (cls,)
     if _dates.STimedelta in cl and _builtin_isinstance(o, _rdt.timedelta):
         return True
-    if _dates.SDateTime in cl and _builtin_isinstance(o, _rdt.date):
+    if _dates.SDateTime in cl and _builtin_isinstance(o, _rdt.datetime):
         return True
     if _dates.STime in cl and _builtin_isinstance(o, _rdt.time):
         return True
@@ -818,10 +824,54 @@ class SymSet:
         return not (self & o)
 
 
+class sx_set_type:
+    """stands for the builtin `set` inside pytz.tzinfo: eq-based for proxy elements (aware datetimes compare by instant)"""
+
+    def __new__(cls, it=()):
+        it = list(it)
+        from . import dates as _d
+        if any(isinstance(x, (_d.SDateTime, TStr)) for x in it):
+            return SymSet(it)
+        return _PromotingSet(it)
+
+
+class _PromotingSet(set):
+    """a real set that turns into an eq-based SymSet as soon as a proxy is added"""
+
+    def add(self, x):
+        from . import dates as _d
+        if isinstance(x, (_d.SDateTime, TStr)):
+            if not hasattr(self, "_sym"):
+                self._sym = SymSet(list(self))
+            self._sym.add(x)
+        elif hasattr(self, "_sym"):
+            self._sym.add(x)
+        else:
+            set.add(self, x)
+
+    def _s(self):
+        return getattr(self, "_sym", None)
+
+    def __len__(self):
+        return len(self._s()) if self._s() is not None else set.__len__(self)
+
+    def __iter__(self):
+        return iter(self._s()) if self._s() is not None else set.__iter__(self)
+
+    def pop(self):
+        if self._s() is not None:
+            self._s()._norm()
+            return self._s().xs.pop()
+        return set.pop(self)
+
+
 def sx_set(it=()):
     it = list(it)
     if any(isinstance(x, LazyIntStr) for x in it):
         it = [x._force() if isinstance(x, LazyIntStr) else x for x in it]
     if any(isinstance(x, TStr) and not x.is_concrete() for x in it):
         return SymSet(it)
-    return set(it)
+    from . import dates as _d
+    if any(isinstance(x, _d.SDateTime) for x in it):
+        return SymSet(it)
+    return _PromotingSet(it)
